@@ -10,6 +10,7 @@
 -/
 import Rpki.Proofs.XmlDocLemmas
 import Rpki.Proofs.XmlLemmas
+import Rpki.Proofs.PubMsgLemmas
 namespace Rpki.Props.C11
 set_option autoImplicit false
 open Rpki.Xml Rpki.XmlDoc
@@ -99,5 +100,30 @@ theorem side_conditions_needed :
       some (.elem [97] [] (some (.cons (.text [120, 10, 32, 32, 121]) .nil))) ∧
     parseDoc (writeDoc (.text [120])) = none :=
   ⟨adjacent_text_lines_are_joined.1, text_root_is_rejected.2⟩
+
+/-! ## RFC 8181 messages (`Model/PubMsg.lean`, tied to `publication::Message` by the `pubx` op) -/
+
+/-- **Publication protocol, message level.** Every message the public constructors can build — list
+query, success, any delta of publish / update / withdraw elements with any tags, URIs and object
+contents (empty objects included), any list reply, any sequence of error reports — is written as a
+document that the reference reader reads back as the same message, up to the two representation
+choices `norm` names (an absent tag is written as the empty tag; an error reply without reports is
+written like an empty list reply). -/
+theorem publication_roundtrip (m : PubMsg.Msg) (hw : m.WF) : PubMsg.read (PubMsg.write m) = some (PubMsg.norm m) :=
+  PubMsg.read_write_any m hw
+
+/-- … the written document is well-formed for the generic document theorem when no object is empty … -/
+theorem publication_tree_wf (m : PubMsg.Msg) (hw : m.WF) (hp : m.Plain) : (PubMsg.toTree m).WF :=
+  PubMsg.toTree_WF m hw hp
+
+/-- … and two messages that are written alike are the same message (up to `norm`). -/
+theorem publication_injective (a b : PubMsg.Msg) (ha : a.WF) (hb : b.WF) (h : PubMsg.write a = PubMsg.write b) :
+    PubMsg.norm a = PubMsg.norm b := PubMsg.write_injective_any a b ha hb h
+
+/-- the two representation choices are real: these pairs of distinct messages are written alike -/
+theorem publication_norm_needed (u h : List Nat) :
+    PubMsg.write (.delta [.withdraw none u h]) = PubMsg.write (.delta [.withdraw (some []) u h]) ∧
+    PubMsg.write (.errors []) = PubMsg.write (.listReply []) := PubMsg.norm_needed u h
+
 
 end Rpki.Props.C11
